@@ -161,7 +161,12 @@ def rollback_findings(F):
         okE |= set(sE)
     marks = [c.block for c in cc.calls(MARK_BAD)] + [blk for blk, i, st in cc.assigns() if is_bad_write(st)]
     oks = [blk for blk, i, st in cc.assigns() if st["lhs"]["l"] == 0 and not st["lhs"]["p"] and st["rv"]["k"] == "agg" and st["rv"].get("variant") == "Ok"]
-    w = cc.uncrossed_path([d for _, d in T], oks, edges=okE, blocks=marks) if okE else [0]
+    # a second test of the same flag before anything was sent cannot disagree with the first one
+    io_blocks = [c.block for c in cc.calls("pgcat::server::Server::query", "pgcat::server::Server::send", "pgcat::server::Server::recv")]
+    pure = set(cc.reach([d for _, d in T], avoid_blocks=io_blocks))
+    _t2, f2_ = call_bool_edges(cc, "pgcat::server::Server::in_transaction", switches_cache=csw)[:2]
+    infeasible = {e for e in (set(f2_) | set(fF)) if e[0] in pure}
+    w = cc.uncrossed_path([d for _, d in T], oks, edges=set(okE) | infeasible, blocks=marks) if okE else [0]
     yield ("open-transaction=>ROLLBACK", bool(rb) and w is None, rb[0].where() if rb else "pgcat::server::Server::checkin_cleanup", w and cc.describe_path(w))
     # ... and believed only if the server then says the transaction is over: Server::query returns Ok whatever the server answered
     # (an ErrorResponse is not an Err), and a connection in copy-in mode consumes the ROLLBACK message as a protocol violation
